@@ -5668,7 +5668,7 @@ class CodegenCtx:
         
         with result as contents:
             for val in out_decl.enum_values:
-                contents.add(f"{self.program_name.upper()}_{out_decl.name.upper()}_{val},")
+                contents.add(f"{self.program_name.upper()}_{out_decl.name.upper()}_{val.upper()},")
 
         result.add("};")
         result.add(f"typedef enum {self.program_name}_out_{out_decl.name} {self.program_name}_out_{out_decl.name}_t;")
